@@ -5,7 +5,7 @@ CXX_ASAN ?= clang++
 COMMON = -std=c++17 -DYOMM2_VERIF_SIM -I$(REPO)/include -Isim -Wno-deprecated-declarations
 ASAN_FLAGS = $(COMMON) -O1 -gline-tables-only -fno-omit-frame-pointer -fsanitize=address,undefined -fno-sanitize-recover=undefined
 
-POLS = dbg rel vec map ind cind thr dfr dfv sdbg srel mapx mapy relx vecx sofd sofr
+POLS = dbg rel vec map ind cind thr dfr dfv sdbg srel mapx mapy relx vecx sofd sofr shr
 GENERIC = common plan exec gen main extras tw genglue
 HDRS = $(wildcard sim/*.hpp) $(shell find $(REPO)/include -name '*.hpp')
 
